@@ -209,7 +209,7 @@ def check_c10(chk, rng):
     models = hg.models_start([("MapSched", "MapSched.none.cfg" if quick else "MapSched.thorough.cfg", None, "MapSched-exhaustive")] +
                              [("MapSched", "MapSched.%s.cfg" % f, inv, "MapSched-fault:" + f)
                               for f, inv in (("lt", "NoLostWakeup"), ("back", "ParentCovers"), ("nopull", "ParentCovers"), ("noobserve", "NoLostWakeup"))])
-    nscn = 160 if quick else 2500
+    nscn = 450 if quick else 2500
     scns, metas, progs = [], [], []
     pid = 1
     for s in range(nscn):
@@ -345,7 +345,7 @@ def branch_graph(rng, base_id, two):
 
 def check_c12(chk, rng):
     quick = chk.tier == "quick"
-    nscn = 250 if quick else 4000
+    nscn = 700 if quick else 4000
     scns, metas, progs = [], [], []
     pid = 1
     for s in range(nscn):
@@ -485,7 +485,7 @@ def check_c12(chk, rng):
 # ------------------------------------------------------------------------------------------------ C11 reduce
 def check_c11(chk, rng):
     quick = chk.tier == "quick"
-    nscn = 300 if quick else 5000
+    nscn = 600 if quick else 5000
     hists, scns = [], []
     for s in range(nscn):
         big = s % 6 == 0
